@@ -7,6 +7,7 @@ A scratch copy of /repo's working tree is made under /var/tmp, the cfg-guarded m
 before returning; the cargo target directory lives in /verif/build/replay-target (git-ignored).
 """
 import json
+import re
 import os
 import shutil
 import subprocess
@@ -430,21 +431,53 @@ def search_counterexample(obligation, repo, seed=0):
     # one search per family and tree within a run: several failed obligations of one family are
     # witnessed by the same failing input
     if memo_key in _SEARCH_MEMO:
-        return _SEARCH_MEMO[memo_key]
-    res = _search_family(fam, repo)
+        return _SEARCH_MEMO[memo_key][:2]
+    res = _search_family(fam, repo, known_kinds(memo_key[0]))
     _SEARCH_MEMO[memo_key] = res
-    return res
+    return res[:2]
 
 
-def _search_family(fam, repo):
+def family_scan_damage(seed):
+    """Lookups and scans over a table file in which one byte was altered (C15; oracle scan_damage):
+    tables of about 25 blocks of 256 bytes; the altered byte sweeps the file."""
+    a = lambda s: s.encode().hex() if s else "-"
+    fam = []
+    n = 120
+    base = [["put", a("key%04d" % i), a("v" * 30 + "%03d" % i)] for i in range(n)]
+    for num in (1, 3, 5, 7, 9, 11):
+        fam.append({"oracle": "scan_damage", "db": base + [["flush"], ["damage_table", str(num), "12", str(1 << ((seed + num) % 8))]]})
+    two = base[:60] + [["flush"]] + [["put", a("key%04d" % i), a("w%03d" % i)] for i in range(0, 120, 7)] + [["delete", a("key0033")], ["flush"], ["compact"]]
+    fam.append({"oracle": "scan_damage", "db": two + [["damage_table", str(2 + seed % 5), "8", "128"]]})
+    return fam
+
+
+def known_kinds(family):
+    """Committed known findings (status known) of a bounded family, by the kind the oracle reports."""
+    try:
+        with open(os.path.join(VERIF, "known_findings.json")) as f:
+            kf = json.load(f)
+    except Exception:
+        return {}
+    return dict((k["kind"], k) for k in kf.get("findings", [])
+                if k.get("status") == "known" and k.get("obligation") == "BOUNDED::" + family and k.get("kind"))
+
+
+def _search_family(fam, repo, known=None):
+    """Returns (first failing input or None, oracle text, known hits).  An input whose ONLY
+    disagreement is of a kind listed as a known finding is recorded and the search goes on."""
+    hits = []
     with ReplayBuild(repo) as rb:
         for cex in fam:
             out = rb.run(cex_to_text(cex))
             if "REPLAY violated" in out:
+                m = re.search(r"kind=(\S+)", out)
+                if known and m and m.group(1) in known:
+                    hits.append({"kind": m.group(1), "observed": out.strip()[:400]})
+                    continue
                 cex = dict(cex)
                 cex["observed"] = out
-                return cex, cex["oracle"]
-    return None, "searched %d inputs of the registered family, none fails on the real code" % len(fam)
+                return cex, cex["oracle"], hits
+    return None, "searched %d inputs of the registered family, none fails on the real code" % len(fam), hits
 
 
 BOUNDS = {
@@ -452,6 +485,7 @@ BOUNDS = {
     "family_crash": "9 whole-database histories (the 5 of family_faults, 2 with values of 40000 and 70000 bytes, i.e. log records spanning 2-3 blocks of 32 KiB, and 2 in which an orphan table file, a temp file and a superseded manifest are dropped into the directory while the database is closed), each re-run once per counted file-system call and per crash mode (the call and everything after it fails; a failing write leaves 0 bytes, 1 byte, half or all but the last byte of its buffer); after the crash point the fault is cleared and the database is reopened, read, written once more and reopened again; in-process state that survives the simulated crash is not reset (only the file system decides what the restarted database sees)",
     "family_faults": "5 whole-database histories (3 hand-written, 2 pseudo-random per seed; at most 14 operations over 5 keys, with flushes, manual compactions and reopens, reuse_log_files on and off), each re-run once per counted file-system call (about 60 to 170 per history) with that call failing once, with that call and all later ones failing, and with that call failing once after half of its buffer was written (a torn write that is reported); only wrong results are judged - a panic or a hang of a faulted run is counted as not judged",
     "family_db_views": "whole-database histories of at most 85 operations over 7 keys (18 hand-written - among them the witnesses of F11 (level-targeted manual compactions with 4 KiB files) and F12 (one byte of the manifest altered between close and reopen; `open` may refuse) - + 10 pseudo-random per seed); every live snapshot and the latest state read back through get, both scan directions, seek to every key, a zig-zag walk and 5 cursor scripts per key",
+    "family_scan_damage": "7 databases of 120 keys in table files of about 25 blocks (block size 256); one byte of the newest table file is altered at 7 positions spread over the file; every key is looked up and the database is scanned in both directions; a lookup may fail, a scan may fail, neither may show anything else than the pairs written",
     "family_log_reader": "write-ahead-log byte streams built from the hand-written and seeded append / reopen / truncate / flip scripts of tools/replay.py (records up to 3 blocks)",
     "family_table_get": "one table of 16 entries (4 user keys x 4 versions) at block sizes 1, 64, 150, 4096 with 49 lookups, plus a one-entry table",
     "family_key_range": "three hand-written file lists",
@@ -469,8 +503,10 @@ def run_family(name, repo, seed=0):
     # result of a family through a cache directory; never set for the registered commands
     cdir = os.environ.get("VERIF_FAMILY_CACHE")
     cfile = os.path.join(cdir, "%s.%d.json" % (name, seed)) if cdir else None
+    known = known_kinds(name)
+    hits = []
     if key in _SEARCH_MEMO:
-        cex, oracle = _SEARCH_MEMO[key]
+        cex, oracle, hits = _SEARCH_MEMO[key]
     elif cfile:
         import fcntl
         os.makedirs(cdir, exist_ok=True)
@@ -478,16 +514,16 @@ def run_family(name, repo, seed=0):
             fcntl.flock(lk, fcntl.LOCK_EX)
             if os.path.exists(cfile):
                 with open(cfile) as f:
-                    cex, oracle = json.load(f)
+                    cex, oracle, hits = json.load(f)
             else:
-                cex, oracle = _search_family(fam, repo)
+                cex, oracle, hits = _search_family(fam, repo, known)
                 with open(cfile, "w") as f:
-                    json.dump([cex, oracle], f)
-        _SEARCH_MEMO[key] = (cex, oracle)
+                    json.dump([cex, oracle, hits], f)
+        _SEARCH_MEMO[key] = (cex, oracle, hits)
     else:
-        cex, oracle = _search_family(fam, repo)
-        _SEARCH_MEMO[key] = (cex, oracle)
-    return {"family": name, "inputs": len(fam), "bound": BOUNDS.get(name, ""), "counterexample": cex,
+        cex, oracle, hits = _search_family(fam, repo, known)
+        _SEARCH_MEMO[key] = (cex, oracle, hits)
+    return {"family": name, "inputs": len(fam), "bound": BOUNDS.get(name, ""), "counterexample": cex, "known_hits": hits,
             "result": "violated" if cex else "holds on every input run", "sample": cex_to_text(fam[0]).split("\n")[:12]}
 
 
